@@ -167,6 +167,11 @@ struct World {
     memory_dirty: bool,
     /// the fabrics whose memory image is ahead of the store (0 = unknown / node-wide)
     dirty_fabs: std::collections::BTreeSet<u8>,
+    /// the arming fabric changed something of its own under its fail-safe (no NOC added / updated yet)
+    arming_fabric_changed: Option<u8>,
+    /// ... and then added another fabric over its CASE session: what it had changed is in limbo
+    /// (known finding: neither committed nor undone with the rest); cleared by a restart
+    limbo: Option<u8>,
     pase_gen: u16,
     pase_dev_id: u16,
     /// C07: for every operational session the harness set up: device-side session id -> (fabric index, root, fabric id)
@@ -212,7 +217,7 @@ impl World {
             roots.push((kp, spec, cert));
         }
         let dev = commdrv::boot(&mut exec, &net, 1, &kv, 1000, true);
-        let mut w = World { exec, net, kv, dev: Some(dev), admin, admin_task: None, answer: Rc::new(RefCell::new(None)), roots, next_root: 0, last_csr_key: None, model: Model::default(), committed: Config::default(), boots: 1, violations: Vec::new(), case_sessions: Vec::new(), memory_dirty: false, dirty_fabs: Default::default(), pase_gen: 0, pase_dev_id: 0, incarnation: BTreeMap::new(), must_be_gone: Default::default(), resumption_of: BTreeMap::new(), subscribed: BTreeMap::new(), completed_now: false, removed_now: None, c07: false, c11: false, c11_crash_points_checked: 0 };
+        let mut w = World { exec, net, kv, dev: Some(dev), admin, admin_task: None, answer: Rc::new(RefCell::new(None)), roots, next_root: 0, last_csr_key: None, model: Model::default(), committed: Config::default(), boots: 1, violations: Vec::new(), case_sessions: Vec::new(), memory_dirty: false, dirty_fabs: Default::default(), arming_fabric_changed: None, limbo: None, pase_gen: 0, pase_dev_id: 0, incarnation: BTreeMap::new(), must_be_gone: Default::default(), resumption_of: BTreeMap::new(), subscribed: BTreeMap::new(), completed_now: false, removed_now: None, c07: false, c11: false, c11_crash_points_checked: 0 };
         w.exec.run()?;
         w.after_boot()?;
         w.committed = w.config();
@@ -656,6 +661,25 @@ impl World {
             Op::RemoveFabricC(_, g) => Some(g),
             _ => None,
         };
+        if let (Some(f), Some(by)) = (touched, was_armed) {
+            if f == by && by != 0 && self.model.noc_fabric.is_none() && !matches!(op, Op::RemoveFabricC(..) | Op::VidStmtC(_)) {
+                self.arming_fabric_changed = Some(f);
+            }
+        }
+        if let Op::AddNocC(f) = op {
+            if self.model.add_noc && self.arming_fabric_changed == Some(f) {
+                self.limbo = Some(f);
+            }
+        }
+        if was_armed.is_none() {
+            self.arming_fabric_changed = None;
+        }
+        let limbo_before = self.limbo;
+        if matches!(op, Op::Restart) {
+            // (a restart ends the limbo: the memory image is the stored one again)
+            self.limbo = None;
+            self.arming_fabric_changed = None;
+        }
         let mut independent = touched.is_some() && was_armed.is_none();
         if let (Some(f), Some(by)) = (touched, was_armed) {
             // (a VID verification statement is part of the pending commissioning only if a NOC was added /
@@ -705,11 +729,32 @@ impl World {
             } else if was_armed.is_none() && !matches!(op, Op::Restart | Op::Tick | Op::FailNextStore | Op::FailSecondStore) && !store_failed && !self.memory_dirty {
                 // changes outside a fail-safe are committed one by one (label / ACL writes, fabric removal)
                 self.committed = cfg.clone();
+            } else if was_armed.is_none() && !store_failed && self.memory_dirty {
+                // ... fabric by fabric while another fabric's memory image is ahead of the store
+                if let Some(f) = touched.filter(|f| !self.dirty_fabs.contains(f)) {
+                    self.committed.fabrics.retain(|x| x.idx != f);
+                    if let Some(new) = cfg.fabrics.iter().find(|x| x.idx == f) {
+                        self.committed.fabrics.push(new.clone());
+                        self.committed.fabrics.sort_by_key(|x| x.idx);
+                    }
+                    match cfg.kv.get(&(f as u16)) {
+                        Some(v) if cfg.fabrics.iter().any(|x| x.idx == f) => {
+                            self.committed.kv.insert(f as u16, *v);
+                        }
+                        _ => {
+                            self.committed.kv.remove(&(f as u16));
+                        }
+                    }
+                }
             }
             let cfg_cmp = if self.memory_dirty { Config { fabrics: self.committed.fabrics.clone(), kv: cfg.kv.clone() } } else { cfg.clone() };
             if cfg_cmp != self.committed {
                 let what = describe_diff(&self.committed, &cfg);
-                self.violations.push((format!("C08:not-all-or-nothing:after-{}{}", op_class(op), if store_failed { ":store-failure" } else { "" }), format!("after {:?} (fail-safe not armed) the node differs from the last committed configuration: {}", op, what)));
+                // which fabrics differ in memory? (the limbo case is a finding of its own)
+                let differing: Vec<u8> = cfg_cmp.fabrics.iter().filter(|f| !self.committed.fabrics.contains(f)).map(|f| f.idx).chain(self.committed.fabrics.iter().filter(|f| !cfg_cmp.fabrics.contains(f)).map(|f| f.idx)).collect();
+                let limbo = limbo_before.filter(|l| !differing.is_empty() && differing.iter().all(|d| d == l) && cfg_cmp.kv == self.committed.kv).is_some();
+                let sig = if limbo { "C08:not-all-or-nothing:change-of-the-arming-fabric-before-it-added-another-fabric-over-case".to_string() } else { format!("C08:not-all-or-nothing:after-{}{}", op_class(op), if store_failed { ":store-failure" } else { "" }) };
+                self.violations.push((sig, format!("after {:?} (fail-safe not armed) the node differs from the last committed configuration: {}", op, what)));
                 self.committed = cfg;
             }
         } else {
@@ -997,7 +1042,9 @@ impl World {
                 Ok(c) => {
                     let now = memory_config(self.md());
                     if c != now {
-                        self.violations.push(("C11:persisted-state-does-not-read-back-equal".into(), format!("in memory {:?}, after a restart {:?}", now.iter().map(|f| (f.idx, f.fabric_id, f.node_id, &f.label, &f.acl, &f.groups)).collect::<Vec<_>>(), c.iter().map(|f| (f.idx, f.fabric_id, f.node_id, &f.label, &f.acl, &f.groups)).collect::<Vec<_>>())));
+                        let differing: Vec<u8> = now.iter().filter(|f| !c.contains(f)).map(|f| f.idx).chain(c.iter().filter(|f| !now.contains(f)).map(|f| f.idx)).collect();
+                        let limbo = self.limbo.filter(|l| differing.iter().all(|d| d == l)).is_some();
+                        self.violations.push((format!("C11:persisted-state-does-not-read-back-equal{}", if limbo { ":change-of-the-arming-fabric-before-it-added-another-fabric-over-case" } else { "" }), format!("in memory {:?}, after a restart {:?}", now.iter().map(|f| (f.idx, f.fabric_id, f.node_id, &f.label, &f.acl, &f.groups)).collect::<Vec<_>>(), c.iter().map(|f| (f.idx, f.fabric_id, f.node_id, &f.label, &f.acl, &f.groups)).collect::<Vec<_>>())));
                     }
                 }
             }
@@ -1099,7 +1146,7 @@ pub fn execute_mode(history: &[Op], mode: u8) -> Result<(u64, Vec<(String, Strin
         v.sort();
         v
     });
-    let key = digest(&(w.config(), w.committed.clone(), w.model.clone(), fs.0.map(|x| (x.0, x.1)), fs.2, sessions, w.last_csr_key.is_some(), w.next_root, w.kv.0.borrow().fail_attempt.is_some(), w.md().comm_window_state().is_open(), w.memory_dirty, w.must_be_gone.clone()));
+    let key = digest(&(w.config(), w.committed.clone(), w.model.clone(), fs.0.map(|x| (x.0, x.1)), fs.2, sessions, w.last_csr_key.is_some(), w.next_root, w.kv.0.borrow().fail_attempt.is_some(), w.md().comm_window_state().is_open(), w.memory_dirty, (w.must_be_gone.clone(), w.limbo, w.arming_fabric_changed, w.dirty_fabs.clone())));
     let en = w.enabled();
     if w.c11 {
         w.c11_final();
@@ -1250,7 +1297,7 @@ pub fn run_check(ctx: &Ctx) -> i32 {
         .set("rule", json!(format!("every history of at most {} operations over the alphabet (ArmFailSafe 60 s / 0 s over PASE / CASE, CSRRequest add / update, AddTrustedRootCertificate, AddNOC, UpdateNOC, ACL write, UpdateFabricLabel, CommissioningComplete right / wrong context, OpenBasicCommissioningWindow, RevokeCommissioning, 61 s pass, restart, next store operation fails), from a factory-fresh node and from a node with one commissioned fabric, and two operations fewer from the middle of a commissioning (NOC added / NOC updated, not completed); the alphabet also has SetVIDVerificationStatement, RemoveFabric and a group key set write; states deduplicated on (configuration in memory, persisted blobs, committed configuration, fail-safe state, sessions, harness bookkeeping)", depth)));
     ev.assume("operational sessions are set up by the harness (pre-established keys) right after AddNOC and after a restart; CASE itself is C01's subject");
     ev.assume("network credentials: the Ethernet build has none to add; the persisted networks blob is part of the compared configuration");
-    if total_states < 20 {
+    if report.violations.is_empty() && (total_states < 20) {
         eprintln!("MACHINERY: vacuous C08 run ({} states)", total_states);
         return 2;
     }
